@@ -654,7 +654,11 @@ def vnet_run(ctx, variant, sub, extra=None, tag=None):
 def vnet_replay(ctx, rp):
     cmd = [_bin(ctx, rp.get("binary") or "vnet_plain")] + rp["argv"] + ["--tier", ctx["tier"]]
     if rp["argv"] and rp["argv"][0] == "c12":
-        cmd += ["--certs", os.path.join(ctx["work"], "certs")]
+        cmd += ["--certs", ensure_certs(ctx)]
+    if rp["argv"] and rp["argv"][0] == "c18":
+        work = os.path.join(ctx["work"], "c18")
+        os.makedirs(work, exist_ok=True)
+        cmd += ["--ipputil", os.path.join(ctx["harness"], "target", "util", "release", "ipputil"), "--work", work]
     rc, so, se, secs = ctx["run"](cmd, timeout=QUICK_TIMEOUT)
     bad = rc != 0 or '"violations_total":0' not in so.replace(" ", "")
     return (1 if bad else 0), so, se, secs
